@@ -21,7 +21,7 @@ from mcx import geom, sched
 
 PID = "C15"
 RULE = (
-    "for every scenario (9 refinement inputs incl. an empty candidate list, caller-supplied optimiser options, a candidate exactly on the coordinate origin and a list naming the same candidate object twice, 4 locate inputs incl. an empty image, 5 stored sequences incl. a translated box, incl. equal time stamps and empty frames, with/without "
+    "for every scenario (9 refinement inputs incl. an empty candidate list, caller-supplied optimiser options, a candidate exactly on the coordinate origin and a list naming the same candidate object twice, 4 locate inputs incl. an empty image, 6 stored sequences incl. a translated box and identical data on a grid of other periodicity, one 132-task refinement (first 3 schedules only, declared cap), incl. equal time stamps and empty frames, with/without "
     "refinement, time course and track list) x worker count k in {2..n+1, auto}: every completion order of the n tasks on k FIFO workers "
     "(depth-first over choice sequences, default-first; count = k!*k^(n-k) for the library's one-task-per-item map, asserted for the "
     "enumerator on a trivial function); all call histories of length <= 2 (3 thorough) over (scenario, k in {1,2}) run in a freshly forked "
@@ -37,6 +37,7 @@ ASSUMPTIONS = [
 ]
 DEDUPE = False
 FRESH_WORKER_PER_BLOCK = True
+CAPS = "scenario refine-many (132 tasks): only the first 3 completion schedules with 2 workers (default order and two deviations) plus the fresh-interpreter and real-pool passes; every other scenario: all schedules"
 _REF = {}
 _PERSIST = {}  # inputs a caller keeps alive across analyses (per process)
 
@@ -96,6 +97,11 @@ def scenarios(tier):
     out["storage-cyl"] = {"api": "storage", "cyl_frames": ["Cm", "T", "Bx", "Cm2", "Bx"][:n], "frames": ["Cm", "T", "Bx", "Cm2", "Bx"][:n], "times": t_inc, "kwargs": {"refine": False}}
     # the same box translated (equal shape and spacing, other bounds): state keyed on the grid must include the bounds
     out["storage-shifted"] = {"api": "storage", "frames": ["C", "A", "B", "D", "E"][:n], "times": t_inc, "kwargs": {"refine": True}, "origin": [-16.0, 3.5]}
+    # the same image data stored on a grid that differs ONLY in its periodicity from the one of an earlier analysis
+    out["storage-pn-samedata"] = {"api": "storage", "frames": ["X", "A", "Y", "X", "B"][:n], "times": t_inc, "kwargs": {"refine": False}, "periodic": [True, False], "render_periodic": [True, True]}
+    # many small tasks (more results than any fixed-size pool of buffers): 132 candidates on a 12 x 11 lattice; the number of completion
+    # orders is astronomically large, so only the first schedules are run (declared cap), plus the fresh-interpreter and real-pool passes
+    out["refine-many"] = {"api": "refine", "many": [12, 11], "kwargs": {"least_squares_params": {"max_nfev": 4}}, "shift": 0.2, "bulk": True, "drops": []}
     out["tracks-dup"] = {"api": "tracks", "frames": ["A", "C", "B", "D", "E"][:n], "times": t_dup, "kwargs": {"refine": False, "method": "distance"}}
     return out
 
@@ -123,6 +129,16 @@ def build(sc):
     """fresh input objects for one call"""
     from droplets import DiffuseDroplet, SphericalDroplet
 
+    if sc["api"] == "refine" and sc.get("many"):
+        from droplets import Emulsion
+        from pde import UnitGrid
+
+        nx, ny = sc["many"]
+        grid = UnitGrid([8 * nx, 8 * ny], periodic=[True, False])
+        truth = [([8 * i + 4.2, 8 * j + 3.9], 2.0 + 0.05 * ((3 * i + 5 * j) % 7), 0.8) for i in range(nx) for j in range(ny)]
+        field = Emulsion([DiffuseDroplet(np.array(c, float), R, w) for c, R, w in truth]).get_phasefield(grid)
+        cands = [DiffuseDroplet(np.array(c, float) + sc["shift"], R * 0.95, w * 1.2) for c, R, w in truth]
+        return field, cands
     if sc["api"] == "refine":
         field = _field(sc.get("field_drops", sc["drops"]), sc.get("affine"), sc.get("contrast"), sc.get("periodic"))
         if sc.get("noise"):
@@ -165,9 +181,15 @@ def build(sc):
             st.append(ScalarField(grid, a), t)
         return (st,)
     st = MemoryStorage()
-    st.start_writing(_field([], periodic=sc.get("periodic"), origin=sc.get("origin")))
+    first = _field([], periodic=sc.get("periodic"), origin=sc.get("origin"))
+    st.start_writing(first)
     for name, t in zip(sc["frames"], sc["times"]):
-        st.append(_field(FRAMES[name], periodic=sc.get("periodic"), origin=sc.get("origin")), t)
+        f = _field(FRAMES[name], periodic=sc.get("render_periodic", sc.get("periodic")), origin=sc.get("origin"))
+        if "render_periodic" in sc:
+            from pde import ScalarField
+
+            f = ScalarField(first.grid, f.data)  # same numbers, grid with the other periodicity
+        st.append(f, t)
     return (st,)
 
 
@@ -336,9 +358,12 @@ def blocks(tier, seed):
     out = [{"part": "selftest"}]
     scs = scenarios(tier)
     for name, sc in scs.items():
+        if sc.get("bulk"):
+            out.append({"part": "schedules", "scenario": name, "k": 2, "tier": tier, "cap": 3})
+            continue
         for k in ks_for(ntasks(sc)):
             out.append({"part": "schedules", "scenario": name, "k": k, "tier": tier})
-    calls = [(name, k) for name in scs for k in (1, 2)]
+    calls = [(name, k) for name in scs for k in (1, 2) if not scs[name].get("bulk")]
     for first in calls:
         out.append({"part": "history", "first": list(first), "tier": tier})
     out.append({"part": "fresh", "tier": tier})
@@ -374,7 +399,7 @@ def run_block(block, ctx):
         ctx.check("C15.repeat", here == ref, {"what": "serial run in this process differs from the serial run of a fresh interpreter", "kind": diff_kind(ref, here) if "raised" not in here else here}, {"api": sc["api"]})
         outcomes, orders = set(), set()
         nsched = 0
-        for choices, res, ch in sched.explore(lambda: safe_call(sc, k)):
+        for choices, res, ch in sched.explore(lambda: safe_call(sc, k), limit=block.get("cap")):
             nsched += 1
             case = {"part": "schedule", "scenario": name, "k": k, "schedule": choices, "tier": tier}
             overt = any(a > b for a, b in zip(ch.order, ch.order[1:]))
@@ -392,11 +417,13 @@ def run_block(block, ctx):
         ctx.count("distinct-completion-orders", len(orders))
         ctx.count("distinct-outcomes", len(outcomes))
         kk = (os.cpu_count() or 1) if k == "auto" else k
-        if nsched == sched.closed_form(ntasks(sc), kk):
+        if block.get("cap"):
+            ctx.count("capped-schedule-blocks")
+        elif nsched == sched.closed_form(ntasks(sc), kk):
             ctx.count("blocks-matching-closed-form")
         return
     if part == "history":
-        calls = [(name, k) for name in scs for k in (1, 2)]
+        calls = [(name, k) for name in scs for k in (1, 2) if not scs[name].get("bulk")]
         depth = 3 if tier == "thorough" else 2
         first = tuple(block["first"])
         tails = [()]
